@@ -3,12 +3,12 @@ package main
 // Symbolic execution of SSA function bodies into verification conditions.
 
 import (
-	"os"
 	"fmt"
 	"go/constant"
 	"go/token"
 	"go/types"
 	"math/big"
+	"os"
 	"sort"
 	"strings"
 
@@ -30,63 +30,63 @@ type loopInfo struct {
 	Ordinal int
 	Spec    *LoopSpec
 	// recorded at header
-	decAtHeader *Term
+	decAtHeader  *Term
 	progAtHeader *Term
-	merge       *ssa.BasicBlock
-	mergeDone   bool
-	headState   *State
-	phiVals     map[*ssa.Phi]Val
+	merge        *ssa.BasicBlock
+	mergeDone    bool
+	headState    *State
+	phiVals      map[*ssa.Phi]Val
 }
 
 type root struct {
-	entry      *State
-	paramTerms []*Term
-	notes      map[string]bool
-	lateGhost  map[string]bool
-	localAddrs []*Term
-	measure *Term // value of the contract's termination measure at function entry
-	caseSplits []*Term // conditions to split every later obligation on (proof by cases)
+	entry       *State
+	paramTerms  []*Term
+	notes       map[string]bool
+	lateGhost   map[string]bool
+	localAddrs  []*Term
+	measure     *Term      // value of the contract's termination measure at function entry
+	caseSplits  []*Term    // conditions to split every later obligation on (proof by cases)
 	localRanges [][2]*Term // typed backing arrays allocated by this activation (start, bytes)
 	knownRanges [][2]*Term // typed slices seen so far (backing array start, bytes): memory that exists before later allocations
-	localSizes []int64
-	watch      []leaf
-	e        *Engine
-	fn       *ssa.Function
-	c        *Contract
-	facts    []*Term
-	obls     []*Obligation
-	counters map[string]int
-	unsup    []string
-	inputs   []leaf
-	panics   bool
-	props    map[string]bool // when non-nil: only clauses with these tags (or untagged)
+	localSizes  []int64
+	watch       []leaf
+	e           *Engine
+	fn          *ssa.Function
+	c           *Contract
+	facts       []*Term
+	obls        []*Obligation
+	counters    map[string]int
+	unsup       []string
+	inputs      []leaf
+	panics      bool
+	props       map[string]bool // when non-nil: only clauses with these tags (or untagged)
 }
 
 type FnRun struct {
-	root      *root
-	e         *Engine
-	fn        *ssa.Function
-	c         *Contract
-	vals      map[ssa.Value]Val
-	names     map[string]ssa.Value
-	allocKind map[*ssa.Alloc]allocKind
-	loops     map[*ssa.BasicBlock]*loopInfo
-	inLoop    map[*ssa.BasicBlock][]*loopInfo
-	depth     int
-	label     string // prefix for obligations from inlined bodies
-	entry     *State
-	env       *Env
-	params    []Val
-	rets      []retPoint
-	curBlock  *ssa.BasicBlock
-	defers    []*ssa.Defer
-	parent    *FnRun
-	iters     map[ssa.Value]SliceV
-	loopPhis  map[string]*ssa.Phi
-	loopLets  map[string]CV // ghost snapshots declared by `loop N let`
+	root           *root
+	e              *Engine
+	fn             *ssa.Function
+	c              *Contract
+	vals           map[ssa.Value]Val
+	names          map[string]ssa.Value
+	allocKind      map[*ssa.Alloc]allocKind
+	loops          map[*ssa.BasicBlock]*loopInfo
+	inLoop         map[*ssa.BasicBlock][]*loopInfo
+	depth          int
+	label          string // prefix for obligations from inlined bodies
+	entry          *State
+	env            *Env
+	params         []Val
+	rets           []retPoint
+	curBlock       *ssa.BasicBlock
+	defers         []*ssa.Defer
+	parent         *FnRun
+	iters          map[ssa.Value]SliceV
+	loopPhis       map[string]*ssa.Phi
+	loopLets       map[string]CV // ghost snapshots declared by `loop N let`
 	loopEntryState *State
-	callOrdinal int
-	calleeCount map[string]int
+	callOrdinal    int
+	calleeCount    map[string]int
 }
 
 type retPoint struct {
